@@ -1,9 +1,9 @@
 (* C18 -- tuples and anonymous components are desugared completely and
    faithfully.  Property theorems only: each is closed by [exact] of a lemma of
-   Proofs.Desugar{Proofs,Metas,Total,Refine}, followed by Print Assumptions.  All
+   Proofs.Desugar{Proofs,Metas,Total,Refine,Alpha}, followed by Print Assumptions.  All
    statements of DESIGN §4 C18 are theorems here; nothing is left open. *)
 From Coq Require Import ZArith NArith List Bool String.
-Require Import Model.Ast Model.Desugar Spec.ExpandSpec Proofs.DesugarProofs Proofs.DesugarMetas Proofs.DesugarTotal Proofs.DesugarRefine.
+Require Import Model.Ast Model.Desugar Spec.ExpandSpec Spec.RenameSpec Proofs.DesugarProofs Proofs.DesugarMetas Proofs.DesugarTotal Proofs.DesugarRefine Proofs.DesugarAlpha.
 Import ListNotations.
 Local Open Scope string_scope.
 
@@ -162,6 +162,40 @@ Theorem C18_desugar_accepts_iff : forall (lib : file_library) ts body,
 Proof. exact desugar_accepts_iff. Qed.
 Print Assumptions C18_desugar_accepts_iff.
 
+(* INDEPENDENCE OF THE NAMING SCHEME.  [expand_spec] takes the functions that name
+   the introduced components and loop counters as parameters; the faithfulness
+   theorems above instantiate them with the implementation's own scheme.  That
+   choice does not matter: for every renaming [f] of variable names that moves none
+   of the names the body itself uses ([fixes_names], Spec.RenameSpec), naming by
+   "f after (comp_name, counter_name)" gives the [f]-renamed expansion ([ren_s f]
+   renames declared, assigned and referenced variables; for injective [f] it is
+   alpha-renaming), and is defined on exactly the same bodies. *)
+Theorem C18_expand_spec_naming_independent :
+  forall (f : string -> string) sig_of comp_name counter_name body,
+    fixes_names f body ->
+    expand_spec sig_of (fun id m => option_map f (comp_name id m)) (fun m => option_map f (counter_name m)) body =
+    option_map (ren_s f) (expand_spec sig_of comp_name counter_name body).
+Proof. exact expand_spec_naming_independent. Qed.
+Print Assumptions C18_expand_spec_naming_independent.
+
+(* hence "the desugarer's output is the hand expansion" holds up to the choice of
+   the new names, not only under the implementation's naming function: renamed by
+   any such [f], the output of the two passes is the specified expansion under the
+   scheme that names components `f (<id>_<line>_<start>)` and counters
+   `f (anon_var_<line>_<start>)`.  ([f] may send different generated names to
+   arbitrary hand-chosen ones, e.g. `A_2_22` to `cx`; nothing is claimed when a
+   generated name coincides with a name the body uses, see design.d/C18.md.) *)
+Theorem C18_desugar_is_expand_up_to_names :
+  forall (f : string -> string) (lib : file_library) ts m l,
+    Forall wf_node (stmt_exprs (Block m l)) ->
+    Forall short_node (sub_stmts (Block m l)) ->
+    fixes_names f (Block m l) ->
+    option_map (ren_s f) (to_opt (desugar_template (env_of ts) lib (Block m l))) =
+    expand_spec (sig_table ts) (fun id mm => option_map f (name_opt lib id mm))
+                (fun mm => option_map f (name_opt lib "anon_var" mm)) (Block m l).
+Proof. exact desugar_is_expand_up_to_names. Qed.
+Print Assumptions C18_desugar_is_expand_up_to_names.
+
 (* ---- hypotheses are satisfiable / the definitions compute ------------------ *)
 
 Definition m0 (a b : N) : meta := Meta a b (Some 0%N).
@@ -231,3 +265,60 @@ Example C18_D7_function_multisub :
                                              Return (m0 9 18) (Number (m0 16 17) 0)]) = DOk (Some [r])
             /\ r_msg r = MFunMultiSub.
 Proof. eexists. vm_compute. split; reflexivity. Qed.
+
+(* the naming-independence theorems on the worked example: a programmer who calls
+   the component `cx` writes exactly the renamed output of the desugarer *)
+Definition ex_f (x : string) : string := if String.eqb x "A_2_22" then "cx" else x.
+
+Example C18_example_fixes_names : fixes_names ex_f ex_body.
+Proof.
+  unfold fixes_names. vm_compute. intros x H.
+  repeat (destruct H as [<-|H]; [reflexivity|]). destruct H.
+Qed.
+
+Example C18_example_hand_names :
+  expand_spec (fun id => if String.eqb id "A" then Some (["x"], ["y"]) else None)
+              (fun id m => Some "cx") (fun _ => Some "k") ex_body =
+  option_map (ren_s ex_f) (to_opt (desugar_template ex_env [[0%N; 8%N]] ex_body)).
+Proof. vm_compute. reflexivity. Qed.
+
+Example C18_example_hand_names_differ :
+  option_map (ren_s ex_f) (to_opt (desugar_template ex_env [[0%N; 8%N]] ex_body)) <>
+  to_opt (desugar_template ex_env [[0%N; 8%N]] ex_body).
+Proof. vm_compute. discriminate. Qed.
+
+(* KNOWN FINDING C18-generated-name-capture (witness).  The implementation's names
+   `<id>_<line>_<start>` are ordinary identifiers, so a body may itself use one: here
+   the body also declares a variable `A_2_22`.  The desugarer accepts it and declares
+   `A_2_22` a second time (as the component), whereas an expansion written by hand
+   with a fresh name declares every name once.  No renaming with [fixes_names] can
+   separate the two, so C18_desugar_is_expand_up_to_names says nothing beyond
+   C18_desugar_is_expand for such bodies. *)
+Definition ex_body_capture : statement :=
+  match ex_body with
+  | Block m l => Block m (l ++ [Declaration (m0 42 55) VVar "A_2_22" [] false])
+  | s => s
+  end.
+
+Definition declared (s : statement) : list string :=
+  flat_map (fun t => match t with Declaration _ _ n _ _ => [n] | _ => [] end) (sub_stmts s).
+
+Example C18_name_capture_refuted :
+  wf_template [[0%N; 8%N]] ex_body_capture /\
+  name_opt [[0%N; 8%N]] "A" (m0 22 30) = Some "A_2_22" /\
+  In "A_2_22" (stmt_names ex_body_capture) /\
+  option_map declared (to_opt (desugar_template ex_env [[0%N; 8%N]] ex_body_capture)) = Some ["A_2_22"; "A_2_22"] /\
+  option_map declared (expand_spec (fun id => if String.eqb id "A" then Some (["x"], ["y"]) else None)
+                                   (fun id m => Some "cx") (fun _ => Some "k") ex_body_capture) = Some ["cx"; "A_2_22"].
+Proof.
+  split; [|split; [|split; [|split]]].
+  - unfold wf_template. repeat split.
+    + vm_compute. repeat constructor; (exists 0%N; split; [reflexivity | discriminate]).
+    + vm_compute. repeat constructor.
+    + vm_compute. repeat constructor.
+    + eexists; eexists; reflexivity.
+  - vm_compute. reflexivity.
+  - vm_compute. auto 10.
+  - vm_compute. reflexivity.
+  - vm_compute. reflexivity.
+Qed.
